@@ -200,6 +200,12 @@ func (p *Printer) renderRUF(t *Term) string {
 		rs.witnesses[r] = true
 		return r
 	case OFFun:
+		if t.Name == "exact_add" {
+			return fmt.Sprintf("(+ %s %s)", a(0), a(1))
+		}
+		if t.Name == "exact_sub" {
+			return fmt.Sprintf("(- %s %s)", a(0), a(1))
+		}
 		var as []string
 		for i := range t.Args {
 			as = append(as, a(i))
